@@ -385,7 +385,7 @@ struct PoSys
   struct Model  // ordered
   {
     unsigned char n = 0;
-    Entry e[2];
+    Entry e[3];
     int find(int name) const
     {
       for (int i = 0; i < n; i++)
@@ -404,7 +404,7 @@ struct PoSys
   std::vector<Op> ops;
   static const std::string &pname(int n)
   {
-    static const std::string names[3] = {"a", "b", "c"};  // "c" is never set
+    static const std::string names[4] = {"a", "b", "c", "d"};  // "d" is never set
     return names[n];
   }
   static int ival(int v) { return v == 2 ? 2 : 1; }
@@ -446,9 +446,12 @@ struct PoSys
       if (n == 0)
         ops.push_back(Op{GETS, n, 0, "gs" + a, "getParam<string>"});
     }
-    for (int n = 0; n < 2; n++)
+    for (int n = 0; n < 3; n++)
       ops.push_back(Op{REMOVE, n, 0, "rm" + pname(n), "removeParam"});
     ops.push_back(Op{RESET, -1, 0, "reset", "resetAllParamQueryStatus"});
+    // a third name (int only), so that three parameters can be present and a first / middle one removed
+    ops.push_back(Op{SETI, 2, 1, "si1c", "setParam<int>"});
+    ops.push_back(Op{GETI, 2, 0, "gic", "getParam<int>"});
   }
   const char *sysname() const { return "ParameterizedObject"; }
   const char *tag() const { return "po"; }
@@ -496,8 +499,9 @@ struct PoSys
     }
     case REMOVE:
       if (i >= 0) {
-        if (i == 0)
-          m.e[0] = m.e[1];
+        cls = m.n == 1 ? "the only parameter" : i == 0 ? "first of several" : i == m.n - 1 ? "last of several" : "a middle one";
+        for (int j = i; j + 1 < m.n; j++)
+          m.e[j] = m.e[j + 1];
         m.n--;
       }
       return -1;
@@ -678,8 +682,8 @@ struct PoSys
         if (!same_contents(o.cls + " (" + sc + ")", "after the operation"))
           return;
         // non-mutating questions, asked at every reached state
-        for (int n = 0; n < 3; n++) {
-          bool present = n < 2 && model.find(n) >= 0;
+        for (int n = 0; n < 4; n++) {
+          bool present = n < 3 && model.find(n) >= 0;
           if (obj->hasParam(pname(n)) != present) {
             ctx.viol(std::string("hasParam") + (present ? "|false for a set parameter" : "|true for an absent parameter"), "hasParam(" + pname(n) + "), parameters " + show(items(model)));
             return;
@@ -743,7 +747,7 @@ int main(int argc, char **argv)
   // depth per alphabet: FlatMap<string,string> costs the most per history and exercises the same code as <int,int>
   const bool th = vr::thorough();
   const int d_fi = atoi(arg_str(argc, argv, "--depth-fm-int", th ? "7" : "6").c_str());
-  const int d_po = atoi(arg_str(argc, argv, "--depth-po", th ? "7" : "6").c_str());
+  const int d_po = atoi(arg_str(argc, argv, "--depth-po", th ? "6" : "5").c_str());  // 17 operations since name c was added
   const int d_fs = atoi(arg_str(argc, argv, "--depth-fm-str", th ? "6" : "5").c_str());
   const std::string only = arg_str(argc, argv, "--only", "");
   if (only.empty() || only == fi.tag())
